@@ -280,9 +280,19 @@ class DictReader:
                 # Make sure to always use the correct odml format attribute name
                 doc_attrs[odmlfmt.Document.map(attr)] = self.parsed_doc[i]
 
-        doc = odmlfmt.Document.create(**doc_attrs)
+        try:
+            doc = odmlfmt.Document.create(**doc_attrs)
+        except Exception as exc:
+            msg = "Document not created (%s)\n  %s" % (doc_attrs, str(exc))
+            self.error(msg)
+            doc = odmlfmt.Document.create()
+
         for sec in doc_secs:
-            doc.append(sec)
+            try:
+                doc.append(sec)
+            except Exception as exc:
+                msg = "Section not added to Document (%s)\n  %s" % (sec, str(exc))
+                self.error(msg)
 
         return doc
 
